@@ -174,7 +174,7 @@ Lemma idle_step cfg s op :
   owned s = [] -> active s = [] -> assigns op = false ->
   owned (fst (rstep cfg s op)) = [] /\ active (fst (rstep cfg s op)) = [] /\ rec_emits (o_emits (snd (rstep cfg s op))) = [].
 Proof.
-  intros Ho Ha Hop. destruct op as [p k|p d|p d|p o|p o|code wm lows| |ps| |p f t|cerr pcs|m|]; try discriminate; cbn [rstep].
+  intros Ho Ha Hop. destruct op as [p k|p d|p d|p o|p o|code wm lows| |ps| |p f t|cerr pcs|m| |p|p d]; try discriminate; cbn [rstep].
   - destruct (pump_idle cfg k s p Ha) as [H1 [H2 H3]]. rewrite H1, H2, H3. auto.
   - rewrite rec_step_idle by assumption. auto.
   - unfold ahead_step. rewrite Ha. destruct (pget p (cli s)); cbn; auto.
@@ -187,6 +187,9 @@ Proof.
   - destruct (trim _ _). cbn. auto.
   - destruct m; cbn; auto.
   - cbn. auto.
+  - unfold rec_crash, would_send. rewrite Ha. cbn [pget]. destruct (pget p (cli s)); [|cbn; auto].
+    rewrite rec_step_idle by assumption. cbn. auto.
+  - unfold wild_step. rewrite Ha. destruct (pget p (cli s)); cbn; auto.
 Qed.
 
 Lemma idle_run cfg : forall ops s,
